@@ -103,14 +103,15 @@ def return_context(f):
                 walk(getattr(s, "body", []), cur)
                 walk(getattr(s, "orelse", []), cur)
     walk(f.body(), None)
+    ctx["__rep_of__"] = rep_of
     return ctx
 
 
 def classify(f, r, ctx):
     """'quat' | exemption reason"""
     node = r["stmt"]
-    c = ctx.get(id(node))
-    v = node.value
+    c = r["arm_ctx"] if "arm_value" in r else ctx.get(id(node))
+    v = r.get("arm_value", node.value)
     if c in ("angles", "rotmat", "other"):
         return "%s representation (not a quaternion)" % c
     if isinstance(v, ast.Call) and isinstance(v.func, ast.Attribute) and v.func.attr in ("to_DCM", "to_angles"):
@@ -132,7 +133,25 @@ def unit_ret(chk, prog, only=None):
         fa = Facts(f, prog, unit_params=unit_params, unit_summaries=summ, inline_private=True).analyse()
         seen = 0
         ctx = return_context(f)
-        for r in fa.ret_info:
+        expanded = []
+        for r0 in fa.ret_info:
+            if r0["none"] or not r0.get("arms"):
+                expanded.append(r0)
+                continue
+            # `return a if <test> else b`: each leaf is a return of its own, under the representation context its tests give it
+            leaf_ctx = {}
+
+            def leaves(e, cur):
+                if isinstance(e, ast.IfExp):
+                    rr = ctx["__rep_of__"](e.test)
+                    leaves(e.body, (rr[0] if rr and rr[0] else cur))
+                    leaves(e.orelse, (rr[1] if rr and rr[1] else cur))
+                else:
+                    leaf_ctx[id(e)] = cur
+            leaves(r0["stmt"].value, ctx.get(id(r0["stmt"])))
+            for a_ in r0["arms"]:
+                expanded.append(dict(r0, unit=a_["unit"], complex=a_["complex"], text="%s [arm %s]" % (r0["text"], a_["text"][:40]), arm_value=a_["expr"], arm_ctx=leaf_ctx.get(id(a_["expr"]))))
+        for r in expanded:
             if r["none"]:
                 continue
             seen += 1
